@@ -377,9 +377,9 @@ template< typename T, typename E>
    bool ArgListIterator< T, E>::isSingleArg() const noexcept( false)
 {
 
-   return (mCurrElement.mElementType == E::Type::singleCharArg)
-      && (mCurrElement.mArgCharPos == 1)
-      && (mpArgV[ mCurrElement.mArgIndex][ 2] == '\0');
+   return (mCurrElement.mElementType != E::Type::singleCharArg)
+      || ((mCurrElement.mArgCharPos == 1)
+          && (mpArgV[ mCurrElement.mArgIndex][ 2] == '\0'));
 } // ArgListIterator< T, E>::isSingleArg
 
    
